@@ -25,7 +25,8 @@ PROP = {'n_quick': 60,
              'prefix and the TapSighash tag are regenerated from the Rust text (translator/tables_C03.py)'],
  'assumes': ['input_index < 2^32 in the taproot refinement theorem (the code casts usize to u32)',
              'OP_CODESEPARATOR removal from the legacy/segwit script code is the caller\'s job (documented in sighash.rs); the specification takes the script code as given',
-             'the sensitivity theorems are partial (top-level fields and sub-hash pre-images, collision extraction); SHA-256 outputs are 32 bytes (hypothesis Hlen)']}
+             'sensitivity theorems: canonical transactions (canon_tx, proved for every decoded transaction), 32-byte genesis/leaf hashes, byte strings < 2^64, and '
+             'SHA-256 outputs are 32 bytes (hypothesis Hlen); residual: segwit hashIssuance does not determine which inputs issue (consensus format; exhibited)']}
 
 TEXT = {'text': 'Kernel-checked refinement of a faithful model of src/sighash.rs (three caches, Prevouts discipline, error order, documented panics) to a '
          'declarative transcription of the Elements signing messages, for abstract hash functions and every transaction: C03_legacy_refines (digest level, whole domain) / C03_legacy_refines_message, '
@@ -34,8 +35,10 @@ TEXT = {'text': 'Kernel-checked refinement of a faithful model of src/sighash.rs
          'digest its (double / tagged) hash), the documented panics occur exactly where consensus defines nothing, the convenience entry points and '
          'Prevouts::One agree with taproot_sighash/All; irrelevance of uncommitted fields for every numeric hash type (script_sig and witness stacks in '
          'all three algorithms, every witness field in legacy/segwit, outputs under NONE, other inputs and their prevouts under ANYONECANPAY, other outputs '
-         'under SINGLE, other inputs\' sequences under NONE/SINGLE in legacy/segwit); partial sensitivity by collision extraction (in particular taproot '
-         'ALL/DEFAULT commits to the output witnesses). With SIGHASH_SINGLE and no matching output the writer emits 0100..00 and the digest IS 0100..00 as in consensus '
+         'under SINGLE, other inputs\' sequences under NONE/SINGLE in legacy/segwit); exact sensitivity: for canonical transactions the digest of each algorithm changes iff its committed view '
+         '(Model/SighashCommit.v: the per-type list of in-memory fields) changes — equal digests imply equal views or an explicit collision '
+         '(C03_committed_matters_*), equal views imply equal digests (C03_committed_complete_*); the legacy message is injective outright; the single '
+         'residual (segwit hashIssuance is not parseable without the issuing pattern) is exhibited and bounded (C03_issuances_given_pattern). With SIGHASH_SINGLE and no matching output the writer emits 0100..00 and the digest IS 0100..00 as in consensus '
          '(C03_legacy_single_out_of_range; finding F17 — the constant was hashed — was repaired by b8dcccb). Each run compares digests and pre-image bytes of the '
          'real crate with the extracted model and with the specification on generated transactions and the repository\'s pinned vectors.',
  'design_ref': 'DESIGN.md section 6, C03 (and open question Q1)',
@@ -43,6 +46,6 @@ TEXT = {'text': 'Kernel-checked refinement of a faithful model of src/sighash.rs
          'model tied to the code by per-run correspondence of digests and pre-images; abstract hashes; regenerated constants. Finding F17 '
          '(legacy SIGHASH_SINGLE out-of-range digest hashed once too often) is fixed (b8dcccb) and a recurrence is a violation (predicate '
          'legacy-single-oob-digest). There is no independent implementation besides the Coq specification, so a model/implementation line difference is '
-         'itself the failing input (mismatch_is_failing_input). Sensitivity is partial as declared in DESIGN.',
+         'itself the failing input (mismatch_is_failing_input). Sensitivity is proved at full strength with one exhibited residual of the consensus format (segwit hashIssuance).',
  'technique': 'Coq proof (refinement of a state-monad implementation model to a declarative specification; irrelevance by congruence over explicit '
               'relations; collision extraction) + per-run correspondence of digests and pre-image writers, pinned vectors, implementation-side consistency predicates'}
